@@ -1,3 +1,5 @@
+use std::num::NonZeroUsize;
+
 use async_lsp::client_monitor::ClientProcessMonitorLayer;
 use async_lsp::concurrency::ConcurrencyLayer;
 use async_lsp::server::LifecycleLayer;
@@ -6,6 +8,11 @@ use tower::ServiceBuilder;
 use tracing_subscriber::EnvFilter;
 
 use lsp::server::Server;
+
+const MAX_IN_FLIGHT_REQUESTS: NonZeroUsize = match NonZeroUsize::new(4096) {
+    Some(n) => n,
+    None => unreachable!(),
+};
 
 #[tokio::main]
 async fn main() {
@@ -25,7 +32,10 @@ async fn main() {
         ServiceBuilder::new()
             .layer(TracingLayer::default())
             .layer(LifecycleLayer::default())
-            .layer(ConcurrencyLayer::default())
+            // The default limit is the number of CPUs. Once that many requests are in flight,
+            // the main loop waits for a free slot without polling the requests that would free
+            // one, and the server never answers again. Keep the limit out of a client's reach.
+            .layer(ConcurrencyLayer::new(MAX_IN_FLIGHT_REQUESTS))
             .layer(ClientProcessMonitorLayer::new(client.clone()))
             .service(Server::new_router(client))
     });
